@@ -40,6 +40,10 @@ CLAIMED = {
     text="For every history of specs/ArrayOps.tla within the bounds and every injection point k of its last operation (the k-th allocation, element construction or element assignment, counted on a fault-free run), the history is re-executed with that point throwing (bad_alloc from the ledger allocator, an exception from the tracked element); the recorded events, the state of every array at the end of the failed operation, a probe sequence (read all, copy-assign a fresh array, destroy) and the final state are validated by the TLA+ monitor specs/Lifecycle.tla: NoLeak, HandleConsistent, DestroyOnAlive/DeallocExact (nothing twice), ReachesCaller (no std::terminate), and NoAllocWhenNotNeeded for same-extent assignment, assignment through views, swap, move, clear.",
     note="single fault per history, exhaustive over the injection points of the last operation (every prefix is itself a history); D 1..2 (3 in thorough), extents 0..2; one open finding (rollback of the iterator-pair constructor for D>=2) is listed in known_findings.txt.",
     ref="DESIGN.md section 5 C09", tech="exhaustive single-fault injection on TLC-generated histories; traces validated by the TLA+ monitor Lifecycle.tla"),
+ "C10": dict(
+    text="specs/ArrayOps.tla carries the allocator instance of every array and prescribes it after every operation as a function of the traits (select_on_container_copy_construction on copy construction, replacement on copy/move assignment and swap exactly when the propagate trait is true, the supplied instance for allocator-extended constructors, storage transfer on move only between equal allocators); for each of the 16 combinations of POCCA/POCMA/POCS/is_always_equal the replayer is instantiated with a stateful ledger allocator (instances 1~2 equal, 3 unequal), every history is executed, get_allocator() of every array is compared with the specification, and every event is validated by Lifecycle.tla: blocks are released through an allocator equal to their producer and each array's block was made by an allocator equal to its get_allocator().",
+    note="bounded: D=1, extents 0..1 (0..2 thorough), histories of <= 3 (4) operations over 2 arrays; swap of unequal non-propagating allocators is excluded as undefined; std::pmr is represented by the all-false trait configuration of the ledger allocator (same code path), not by a separate memory_resource run.",
+    ref="DESIGN.md section 5 C10", tech="TLA+ specification of allocator propagation replayed in 16 trait configurations + TLA+ trace monitor (Lifecycle.tla) on recorded allocator events"),
 }
 
 props = [json.loads(l) for l in open(os.path.join(V, "properties.jsonl"))]
